@@ -157,12 +157,42 @@ def _cmp(ctx, oracle, mk, t, i, impl, model, tol, what, pred='step'):
   return True
 
 
+class LayoutMismatch(Exception):
+  pass
+
+
+def check_layout(ctx, view, rec):
+  """The set of leaves that carry second-order state must be the one the
+  documented skip rules give. Returns the indices that disagree."""
+  bad = set()
+  for i, lay in enumerate(view.lays):
+    rank = len(lay['padded'])
+    if view.so == 'shampoo':
+      has = view.stats(rec['prev'], i, 0) is not None if rank else \
+          view.find(rec['prev'], f".blocks['p{i}']") is not None
+    else:
+      has = view.axis(rec['prev'], i, 0) is not None if rank else None
+    if has is None:
+      continue
+    if has == lay['masked']:
+      bad.add(i)
+      if ('layout', i) not in ctx.__dict__.setdefault('_reported', set()):
+        ctx._reported.add(('layout', i))
+        ctx.violate('state_layout', _modekey(rec['world']),
+                    'leaf_excluded_from_preconditioning_unexpectedly'
+                    if not has else 'leaf_preconditioned_unexpectedly',
+                    tick=rec['t'], leaf=i, shape=list(lay['shape']))
+  return bad
+
+
 def model_leaf(w, view, rec, i, active=None, property_discount=True):
   """One-step model for leaf i fed the implementation's previous state.
   Returns dict with predicted pieces (None where not applicable)."""
   cfg, t = w.cfg, rec['t']
   prev, new = rec['prev'], rec['new']
   lay = view.lays[i]
+  if i in rec.get('layout_bad', ()):
+    raise LayoutMismatch(i)
   g = np.asarray(rec['grads'][i], np.float64)
   out = dict(lay=lay)
   rank = len(lay['padded'])
@@ -235,7 +265,7 @@ def refine(ctx, rec):
   mk = _modekey(w)
   u = U64 if rec['x64'] and view.so == 'shampoo' else U32
   for i, lay in enumerate(view.lays):
-    if i in rec['poisoned']:
+    if i in rec['poisoned'] or i in rec.get('layout_bad', ()):
       for o in ('step_update', 'step_stats', 'step_roots', 'step_graft_acc',
                 'step_momentum'):
         ctx.ev(o, 'muted')
@@ -334,7 +364,7 @@ def warmup(ctx, rec):
     return
   S = cfg['graft']['start_preconditioning_step']
   for i, lay in enumerate(view.lays):
-    if i in rec['poisoned'] or lay['masked']:
+    if i in rec['poisoned'] or lay['masked'] or i in rec.get('layout_bad', ()):
       ctx.ev('warmup', 'muted')
       continue
     right = model_leaf(w, view, rec, i, active=(t >= S))['update']
@@ -377,7 +407,7 @@ def graft(ctx, rec):
   lr = ref.lr_value(w.lr_spec, t)
   u32 = U64 if rec['x64'] and view.so == 'shampoo' else U32
   for i, lay in enumerate(view.lays):
-    if i in rec['poisoned']:
+    if i in rec['poisoned'] or i in rec.get('layout_bad', ()):
       for o in ('graft_norm', 'graft_dir', 'warmup_graft'):
         ctx.ev(o, 'muted')
       continue
@@ -462,7 +492,7 @@ def fd(ctx, rec):
   lowrank = hist.setdefault('lowrank', {})
   upd_tick = t % o['update_freq'] == 0
   for i, lay in enumerate(view.lays):
-    if lay['masked']:
+    if lay['masked'] or i in rec.get('layout_bad', ()):
       continue
     rank = len(lay['padded'])
     if i in rec['poisoned']:
@@ -605,8 +635,12 @@ def run(plan, prop):
                  grads=grads, poisoned=set(poisoned), poisoned_now=pnow,
                  prev=prev, new=new, updates=ups, view=view, params=params,
                  world=world, x64=bool(plan.get('x64', True)))
+      rec['layout_bad'] = check_layout(ctx, view, rec)
       for o in oracles:
-        o(ctx, rec)
+        try:
+          o(ctx, rec)
+        except LayoutMismatch:
+          pass
       if signature(state2) != init_sig and plan.get('check_layout', True):
         ctx.violate('layout_fixed_point', _modekey(world),
                     'state_signature_changed', tick=t)
